@@ -61,6 +61,42 @@ pub fn run() {
             println!("{}", json!({"kind":"abandon","id":id,"rounds":rounds,"k":k,"failures":failures}));
             continue;
         }
+        if a.get("op").map(|s| s == "probe").unwrap_or(false) {
+            // a stream is polled once while nothing is there (a probe with a throw-away waker: now_or_never), then awaited by ANOTHER
+            // task on another thread: the task that waits must be the one that is woken
+            use futures::FutureExt;
+            let k: u32 = a["k"].parse().unwrap();
+            let probes: u32 = a.get("probes").map(|s| s.parse().unwrap()).unwrap_or(1);
+            let (tx, rx) = ipc::channel::<(u32, u32)>().unwrap();
+            let mut stream = rx.to_stream();
+            let mut early = 0;
+            for _ in 0..probes {
+                if stream.next().now_or_never().is_some() {
+                    early += 1;
+                }
+            }
+            let sender = std::thread::spawn(move || {
+                std::thread::sleep(std::time::Duration::from_millis(30));
+                for q in 0..k {
+                    let _ = tx.send((0, q));
+                    std::thread::sleep(std::time::Duration::from_millis(2));
+                }
+            });
+            let res = with_watchdog(5_000, move || {
+                let mut items: Vec<u32> = Vec::new();
+                futures::executor::block_on(async {
+                    while let Some(m) = stream.next().await {
+                        if let Ok(m) = m {
+                            items.push(m.1);
+                        }
+                    }
+                });
+                items
+            });
+            let _ = sender.join();
+            println!("{}", json!({"kind":"probe","id":id,"k":k,"probes":probes,"early":early,"hang":res.is_none(),"items":res}));
+            continue;
+        }
         if a.get("op").map(|s| s == "unit").unwrap_or(false) {
             // items whose encoding is EMPTY (`()`, a unit struct, PhantomData): nothing but their count travels, and it must be exact
             #[derive(serde::Serialize, serde::Deserialize)]
